@@ -423,6 +423,42 @@ export function mutants(x) {
   return out;
 }
 
+// Values with TWO faults at different top-level positions of an array / tuple / object (an error reporter that
+// leaves state behind after the first fault shows in the second): pairs of one-point mutants of two children.
+export function twoFaultValues(prog, t, cap = 60) {
+  const out = [];
+  let spec = t;
+  for (let i = 0; i < 4 && spec.k === "ref"; i++) spec = prog.unfold(spec);
+  const faults = (child) => {
+    const ms = members(prog, child, 3);
+    if (!ms[0]) return [];
+    // the member itself, then faults spread evenly over ALL its one-point mutants (whole-value, every nested position)
+    const all = mutants(ms[0]);
+    const step = Math.max(1, Math.floor(all.length / 9));
+    const picked = [];
+    for (let i = 2; i < all.length && picked.length < 9; i += step) picked.push(all[i]);
+    return [ms[0], ...picked];
+  };
+  const push = (x) => {
+    if (out.length < cap) out.push(x);
+  };
+  if (spec.k === "array") {
+    const f = faults(spec.e);
+    for (const a of f.slice(1)) for (const b of f.slice(1)) push(Arr([a, b]));
+    for (const a of f.slice(1, 4)) push(Arr([a, f[0], a]));
+  } else if (spec.k === "tuple" && spec.items.length >= 2) {
+    const fs = spec.items.map(faults);
+    if (fs.every((f) => f.length > 0)) for (const a of fs[0].slice(1)) for (const b of fs[1].slice(1)) push(Arr([a, b, ...fs.slice(2).map((f) => f[0])]));
+  } else if (spec.k === "object" && spec.props.length >= 2) {
+    const fs = spec.props.map((p) => faults(p.t));
+    if (fs.every((f) => f.length > 0))
+      for (let i = 0; i < spec.props.length; i++)
+        for (let j = i + 1; j < spec.props.length; j++)
+          for (const a of fs[i].slice(1, 5)) for (const b of fs[j].slice(1, 5)) push(Obj(spec.props.map((p, k) => [p.name, k === i ? a : k === j ? b : fs[k][0]])));
+  }
+  return out;
+}
+
 // U(T) = pool ∪ D(T), deduplicated by source text. Returns vexprs.
 export function universeFor(prog, t, { mutantCap = 400 } = {}) {
   const seen = new Set();
